@@ -295,7 +295,7 @@ pub fn interp_attempt(g: &GraphData, dense: &Dense, src: &[u8], start: usize, pa
                 continue;
             }
         } else {
-            if partial && !s.normal.is_empty() {
+            if partial && (!s.normal.is_empty() || s.eoi.is_some()) {
                 return GAttempt::NeedMore;
             }
             if state == g.root && offset == start {
